@@ -9,8 +9,9 @@ use bp7::eid::{EndpointID, IpnAddress};
 use bp7::primary::PrimaryBlock;
 use std::time::Duration;
 
-const PIECES: [&str; 24] = [
+const PIECES: [&str; 29] = [
     "a", "b", "node", "n1", "0", "1", "9", "-", ":", "%", "~", ".", "_", "ü", "é", "€", "\u{10348}", "x/y", "svc", "in", "A", " ", "+", "none",
+    "\"", "\\", "\n", "\u{7f}", "\u{1}",
 ];
 
 pub fn gen_name(rng: &mut Rng, allow_slash: bool, allow_empty: bool) -> String {
